@@ -129,7 +129,7 @@ def run(tier: str) -> int:
     r.rule = ("per population: every node of the default graph requested (a) alone, (b) in random target sets, (c) with "
               "all nodes; noise columns added; debug / check_minimal_specification varied; values compared bit-for-bit "
               "(same process, same inputs), row count, row order and exactly-the-targets contract. distinct = (population, target set).")
-    common.build_and_audit(r, ["C04", "C04Sim", "T3"], leanchecker=not quick)
+    common.build_and_audit(r, ["C04", "C04Sim", "C04Extra", "T3"], leanchecker=not quick)
     rnd = common.rng("C04")
     t3.run_t3(r, 1000 * common.seed() + 4, 40 if quick else 600)
     t4.run_t4_quick(r, common.rng("C04-T4"), quick, with_cut=True)
